@@ -123,6 +123,10 @@ class Ctx:
         self.clauses[clause] += n
         self.evaluations += n
 
+    def clause(self, name, n=1):
+        """per-clause judgement count (does not add to `evaluations`, which counts judged calls/cases)"""
+        self.clauses['clause:' + name] += n
+
     def nontriv(self, key):
         if len(self.nontrivial) < 2000000:
             self.nontrivial.add(hash(key))
